@@ -15,7 +15,11 @@ boltons.strutils functions and compared with independent oracles:
   parser (stdargv.c parse_cmdline), in the pre-2008 and the post-2008 variant (they differ in the treatment of `""`
   inside a quoted part); both must return exactly the input list.
 * format_int_list / parse_int_list / complement_int_list: set arithmetic and a reference formatter / strict parser.
-* gzip_bytes / gunzip_bytes: identity of the round trip; gzip.decompress as independent decoder.
+* gzip_bytes / gunzip_bytes: identity of the round trip; gzip.decompress as independent decoder.  Besides the exhaustive
+  short strings a directed (non-exhaustive) ladder of bulk sizes: powers of two -1/+0/+1 up to 4 MiB (thorough: 64 MiB)
+  and the integer constants found in boltons.strutils / gzip / io with neighbours and multiples, at every level.
+* every call of a strutils function is the *second* call with equal arguments, after the first result was changed in
+  place by the caller (inputs.second_call, applied to every callable of the module, decorator objects included).
 
 No sampling: VERIF_SEED only chooses which cases are written out as samples.
 """
@@ -83,10 +87,26 @@ SHELL_TIMEOUT = 300
 MAX_ROUNDS = 60              # re-batching rounds after derailed scripts, per batch
 
 
+class SecondCallAll:
+    """Proxy of the module under test: every public callable that is not a class - plain functions and also callable
+    wrapper objects such as functools.lru_cache / partial / C-implemented decorators, which inputs.SecondCallModule
+    (plain functions only) lets through unwrapped - goes through inputs.second_call."""
+
+    def __init__(self, mod):
+        self._mod = mod
+
+    def __getattr__(self, name):
+        v = getattr(self._mod, name)
+        if callable(v) and not isinstance(v, type):
+            return inputs.second_call(v)
+        return v
+
+
 def _su():
-    # every evaluation is the second call with the same arguments (see inputs.second_call)
+    # every evaluation is the second call with equal arguments, made after the result of the first call was changed
+    # in place by its owner (see inputs.second_call): a result must not depend on earlier calls
     from boltons import strutils
-    return inputs.SecondCallModule(strutils)
+    return SecondCallAll(strutils)
 
 
 # ------------------------------------------------------------------------------------------------------------------
@@ -1027,6 +1047,69 @@ STRUCTURED = ('a*100000', 'all-256', 'all-256*400', 'nul*65536', 'ff*65535', 'lc
               'lcg-200000', 'gzip-magic', 'gzip-of-gzip')
 
 
+# bulk sizes: a block-wise / buffered implementation has thresholds (block size, buffer size, window size) that the short
+# exhaustive strings never reach.  Directed, NOT exhaustive in the content: one position-dependent payload per size.
+_BULK = {}
+
+
+def bulk_payload(n):
+    """Deterministic bytes of length n: 256-byte groups (a SHA-256 digest of the group number, eight times), so the
+    content compresses quickly, and no two groups are equal (a dropped, repeated or moved block changes the value)."""
+    import hashlib
+    have = _BULK.get('data', b'')
+    if len(have) < n:
+        out = bytearray(have)
+        c = len(have) // 256
+        out = out[:c * 256]
+        while len(out) < n:
+            out += hashlib.sha256(b'c14-%d' % c).digest() * 8
+            c += 1
+        have = _BULK['data'] = bytes(out)
+    return have[:n]
+
+
+def module_int_constants():
+    """Integer constants (block / buffer sizes) found by introspection of the module under test, of the gzip module
+    it builds on and of io - thresholds that a size ladder should straddle."""
+    import io
+    from boltons import strutils
+    found = set()
+    for mod in (strutils, gzip, io):
+        for k, v in sorted(vars(mod).items()):
+            if isinstance(v, int) and not isinstance(v, bool) and v >= 8:
+                found.add(v)
+    return sorted(found)[:32]
+
+
+def bulk_sizes(tier):
+    """-> (sizes for every level, extra sizes for the levels default/1/9 only)."""
+    q = tier == 'quick'
+    top, cap = (22, 1 << 23) if q else (24, 1 << 26)
+    full = top - 1 if q else top                 # powers of two below 2**full: -1/+0/+1 at every level
+    sizes = set()
+    for k in range(3, full):
+        sizes.update((2 ** k - 1, 2 ** k, 2 ** k + 1))
+    sizes.add(2 ** top + 1)                      # above every threshold up to 2**top, at every level
+    for c in module_int_constants():
+        sizes.update(x for x in (c - 1, c, c + 1, 2 * c - 1, 2 * c, 2 * c + 1, 3 * c + 1) if x <= cap)
+    if q:
+        few = {2 ** full - 1, 2 ** full, 2 ** full + 1}
+    else:
+        few = {2 ** top - 1, 2 ** top, 2 ** 25 + 1, 2 ** 26 + 1}
+    return sorted(sizes), sorted(few - sizes)
+
+
+def gzip_bulk_shard(spec):
+    _, level, n = spec
+    t = inputs.Tally()
+    case = {'family': 'gzip', 'bulk': n, 'level': level, 'how': 'pos'}
+    t.count(nontrivial=True, sample=case)
+    t.add('bytes_round_tripped', n)
+    for sig, exp, obs in gzip_eval(bulk_payload(n), level, 'pos'):
+        t.bad(sig, case, exp, obs, tags=['bulk'])
+    return t
+
+
 def gzip_eval(b, level, how):
     su = _su()
     v = []
@@ -1128,6 +1211,14 @@ def run(ctx):
                       part='int:complement', rule='non-empty list and non-empty expected complement')
     inputs.run_shards(ctx, gzip_shard, [('gz', lv, B['gzip_maxlen']) for lv in [None] + list(range(1, 10))],
                       part='gzip', rule='non-empty byte string')
+    all_sizes, few_sizes = bulk_sizes(ctx.tier)
+    bulk_payload(max(all_sizes + few_sizes))          # built once, inherited by the forked workers
+    bulk = [('bulk', lv, n) for n in all_sizes for lv in [None] + list(range(1, 10))]
+    bulk += [('bulk', lv, n) for n in few_sizes for lv in (None, 1, 9)]
+    bulk.sort(key=lambda s: s[2])                     # simplest (shortest) first
+    inputs.run_shards(ctx, gzip_bulk_shard, bulk, part='gzip:bulk-sizes',
+                      rule='every payload is non-empty (7 bytes and more)')
+    ctx.coverage['parts']['gzip:bulk-sizes']['exhaustive'] = False
 
     cov = ctx.coverage
     cov['rule'] = ('a case is non-trivial when the encoder has something to do: shell/cmd lists containing an empty '
@@ -1154,7 +1245,14 @@ def run(ctx):
                                       % (B['compl_wmax'], B['compl_wmax']),
                 'complement_variants': [v for v, _ in COMPL_VARIANTS]},
         'gzip': {'alphabet': list(GZ_ALPHA), 'max_len': B['gzip_maxlen'], 'levels': 'default, 1..9',
-                 'structured': list(STRUCTURED)},
+                 'structured': list(STRUCTURED),
+                 'bulk': {'sizes_all_levels': all_sizes, 'sizes_levels_default_1_9': few_sizes,
+                          'module_int_constants': module_int_constants(),
+                          'payload': 'one per size: 256-byte groups, SHA-256 of the group number repeated 8 times',
+                          'exhaustive': False,
+                          'note': 'directed size ladder (powers of two -1/+0/+1 and integer constants of '
+                                  'boltons.strutils, gzip and io with neighbours and multiples); the content is not '
+                                  'enumerated, thresholds above the largest size are not reached'}},
     }
     ctx.assumptions += [
         'the text is used as the argument part of a command line (after a command name / program name): a word '
@@ -1205,7 +1303,12 @@ def replay(ctx, data):
         for v in complement_eval(case['list'], case['range_start'], case['range_end'], case.get('variant', 'default')):
             add(*v)
     elif fam == 'gzip':
-        b = structured_bytes(case['structured']) if 'structured' in case else bytes(case['bytes'])
+        if 'bulk' in case:
+            b = bulk_payload(case['bulk'])
+        elif 'structured' in case:
+            b = structured_bytes(case['structured'])
+        else:
+            b = bytes(case['bytes'])
         for v in gzip_eval(b, case['level'], case.get('how', 'pos')):
             add(*v)
     else:
